@@ -219,6 +219,8 @@ class MockState:
         blockquote_lines = lines
         attribution_lines = []
         attribution_line_offset = None
+        # index of the first line after the attribution
+        next_index = len(lines)
         # First line after a blank line must begin with a dash
         for i, line in enumerate(lines):
             if not line.strip():
@@ -233,11 +235,14 @@ class MockState:
                 continue
             attribution_line_offset = i
             attribution_lines = [match.group(2)]
+            next_index = i + 1
             for at_line in lines[i + 1 :]:
                 indented_line = at_line[len(match.group(1)) :]
-                if len(indented_line) != len(at_line.lstrip()):
+                # the attribution ends at a blank line, or a change of indentation
+                if not at_line.strip() or len(indented_line) != len(at_line.lstrip()):
                     break
                 attribution_lines.append(indented_line)
+                next_index += 1
             blockquote_lines = lines[:i]
             break
         # parse block
@@ -260,6 +265,11 @@ class MockState:
             ) = self.state_machine.get_source_and_line(lineno)
             blockquote += attribution
             elements += messages
+        # as in docutils, the lines after an attribution start a new block quote
+        while next_index < len(lines) and not lines[next_index].strip():
+            next_index += 1
+        if next_index < len(lines):
+            elements += self.block_quote(lines[next_index:], line_offset + next_index)
         return elements
 
     def build_table(self, tabledata, tableline, stub_columns: int = 0, widths=None):
